@@ -42,6 +42,7 @@ type SpecEnv struct {
 	qn      *int
 	depth   int
 	recvPkg string
+	atExit  bool // internal clause evaluated at a function exit: unset locals are arbitrary
 }
 
 func (env *SpecEnv) with(st *State) *SpecEnv {
@@ -230,6 +231,10 @@ func (env *SpecEnv) lookupIdent(name string) (TV, bool) {
 			if !found.Heap {
 				if v, ok := env.st.locals[found]; ok {
 					return TV{v, et}, true
+				}
+				if env.atExit {
+					// not assigned on the path to this exit: arbitrary value (conservative for a proof goal)
+					return TV{env.vc.havocVal(env.st, et, "unset$"+name), et}, true
 				}
 			} else {
 				p := asPtr(env.fr.regs[found], et)
@@ -620,6 +625,12 @@ func (vc *VC) selectField(env *SpecEnv, x TV, name string) TV {
 		env.fail("bad tuple selector .%s", name)
 	}
 	if _, isIface := x.T.Underlying().(*types.Interface); isIface {
+		// ghost (abstract state) field declared on the interface type itself
+		if gf := vc.eng.ghostField(x.T, name); gf != nil {
+			gty := env.resolveTypeIn(gf)
+			p := &VPtr{Kind: PCell, Base: env.scalar(x), Root: x.T}
+			return TV{vc.loadGhost(env.st, p, x.T, name, gty), gty}
+		}
 		// interface value with a declared (devirt) implementation: select through the implementation type
 		if impl := vc.eng.devirt[typeKey(x.T)]; impl != nil {
 			x = TV{x.V, impl}
@@ -775,6 +786,16 @@ func (env *SpecEnv) evalCall(e *SExpr) TV {
 			}
 			sub := env.with(env.old)
 			return sub.eval(e.Args[0])
+		case "pre":
+			// pre(x.f): x evaluated in the current state, field f read in the old state
+			if env.old == nil {
+				env.fail("pre() not available here")
+			}
+			if e.Args[0].Kind != SSel {
+				env.fail("pre() needs a selector x.f")
+			}
+			x := env.eval(e.Args[0].X)
+			return vc.selectField(env.with(env.old), x, e.Args[0].Name)
 		case "len":
 			x := env.eval(e.Args[0])
 			switch v := x.V.(type) {
@@ -912,7 +933,7 @@ func (env *SpecEnv) evalCall(e *SExpr) TV {
 			kt := types.Type(types.Typ[types.Uint64])
 			return TV{&VS{mkConstArr(SArr(leafSort(kt), SBool), tFalse)}, &specT{kind: "set", k: kt}}
 		case "now":
-			return TV{&VS{vc.nowTerm()}, mathInt}
+			return TV{&VS{vc.nowOf(env.st)}, mathInt}
 		case "errIs":
 			a := env.scalar(env.eval(e.Args[0]))
 			b := env.scalar(env.eval(e.Args[1]))
@@ -1160,11 +1181,24 @@ func packBytes(arr, off *Term, n int) *Term {
 	return mkApp(fmt.Sprintf("pack%d", n), SInt, as...)
 }
 
-func (vc *VC) nowTerm() *Term {
-	if vc.nowLast == nil {
-		return mkInt(0)
+const nowKey = "$now"
+
+// nowOf: the latest instant read from the clock in state st (nanoseconds; symbolic, positive, monotone).
+func (vc *VC) nowOf(st *State) *Term {
+	if t, ok := st.heap[nowKey]; ok {
+		return t
 	}
-	return vc.nowLast
+	vc.famSort[nowKey] = SInt
+	return mkVar("H$"+nowKey, SInt)
+}
+
+// advanceClock: the callee reads the clock: the new current instant is some instant not before the old one.
+func (vc *VC) advanceClock(st *State) {
+	old := vc.nowOf(st)
+	t := vc.fresh("now", SInt)
+	vc.assume(st, mkAnd(mkCmp(">=", t, old), mkCmp(">", t, mkInt(0)), mkCmp("<=", t, mkBig(pow2(62)))))
+	st.heap[nowKey] = t
+	vc.famSort[nowKey] = SInt
 }
 
 func (vc *VC) errorsIs(err, target *Term) *Term {
